@@ -220,7 +220,8 @@ func c14Run(e *Env, isCache bool) {
 	e.Real("pkg/sync.Map", "pkg/cache.Cache")
 	nTasks := 2 + t.Choose(2)
 	nKeys := 1 + t.Choose(2)
-	sites := []string{"task.op", "map.LoadOrStore.gap", "map.Range.item", "cache.LoadOrStore.afterNow", "cache.Load.beforeExpiryTest", "cache.sweep.beforeDelete"}
+	// "auto.unlock" = the yields the build inserts after every non-deferred Unlock()/RUnlock() of map.go and cache.go
+	sites := []string{"task.op", "map.LoadOrStore.gap", "map.Range.item", "cache.LoadOrStore.afterNow", "cache.Load.beforeExpiryTest", "cache.sweep.beforeDelete", "auto.unlock"}
 	for _, s := range sites {
 		e.EnableParkAll(s)
 	}
